@@ -127,7 +127,82 @@ def _groups(S):
     return [(frozenset(n for n in names if S[n] <= m), m) for m in maximal]
 
 
+def _check_cli_prefix(case):
+    """Command line with --proteins: renaming the decoy prefix consistently (FASTA entries + --decoy_prefix) leaves the
+    protein-level result unchanged up to that name.  brew is replaced by 'scores = feature f0' (the roll-up is the subject)."""
+    import contextlib
+    import io
+
+    import mokapot.peps as mpeps
+    from mokapot import mokapot as cli
+
+    from core import Violation
+    from props import c08
+
+    config_inject.install_pep_stub()
+    spec = {"seed": case["seed"], "n_spectra": case["n"], "key": 2, "fmt": "tsv", "fasta_decoys": True}
+    real_brew, saved_pep = cli.brew, mpeps.PEP_ALGORITHM["qvality"]
+
+    def fake_brew(datasets, model=None, **kw):
+        return datasets, [], [np.asarray(d.read_data(columns=["f0"])["f0"].values, dtype=float) for d in datasets], [True] * len(datasets)
+
+    results = {}
+    with scratch_dir() as tmp:
+        pin, fasta = c08._build_inputs(spec, tmp)
+        text = fasta.read_text()
+        for prefix in ("decoy_", case["prefix"]):
+            d = tmp / ("run_" + prefix.strip("_-"))
+            d.mkdir()
+            f2 = d / "db.fasta"
+            f2.write_text(text.replace(">decoy_", ">" + prefix))
+            p2 = d / "exp.pin"
+            p2.write_text(pin.read_text())
+            mpeps.PEP_ALGORITHM["qvality"] = mpeps.PEP_ALGORITHM["verif_stub"]
+            cli.brew = fake_brew
+            try:
+                with contextlib.redirect_stderr(io.StringIO()), contextlib.redirect_stdout(io.StringIO()):
+                    guarded(cli.main, [str(p2), "--dest_dir", str(d / "out"), "--proteins", str(f2), "--decoy_prefix", prefix, "--min_length", "6",
+                                       "--missed_cleavages", "0", "--keep_decoys", "--test_fdr", "0.2", "--verbosity", "0", "--peps_algorithm", "qvality"],
+                            sig="cli")
+            finally:
+                cli.brew = real_brew
+                mpeps.PEP_ALGORITHM["qvality"] = saved_pep
+            res = {}
+            for nm in ("targets.proteins", "decoys.proteins"):
+                f = d / "out" / nm
+                require(f.exists(), "protein-files", f"--decoy_prefix {prefix}: {nm} missing ({sorted(x.name for x in (d / 'out').iterdir())})")
+                res[nm] = f.read_text().replace(prefix, "decoy_") if prefix != "decoy_" else f.read_text()
+            results[prefix] = res
+    a, b = results["decoy_"], results[case["prefix"]]
+    for nm in a:
+        require(a[nm] == b[nm], "cli-decoy-prefix",
+                f"command line with --proteins: {nm} differs between a database with prefix 'decoy_' and the same database with prefix "
+                f"{case['prefix']!r} (+ --decoy_prefix): {a[nm].count(chr(10)) - 1} vs {b[nm].count(chr(10)) - 1} entries")
+    return {"nontrivial": True, "classes": ["cli-decoy-prefix"], "counters": {"cli_runs": 2}}
+
+
+def extra(tier, seed, shard, nshards, stats):
+    from core import Violation
+
+    reps = 1 if tier == "quick" else 4
+    for r in range(reps):
+        case = {"kind": "cli-prefix", "seed": seed * 1009 + shard * 17 + r, "n": 260 + 20 * ((shard + r) % 4), "prefix": ["rev_", "DECOY-", "xx_"][(shard + r) % 3]}
+        stats.evaluations += 1
+        try:
+            obs = _check_cli_prefix(case)
+        except Rejected as rej:
+            stats.rejected += 1
+            stats.rejected_reasons[str(rej)[:80]] += 1
+            continue
+        except Violation as v:
+            stats.failure = {"case": case, "signature": v.signature, "message": v.message}
+            return
+        stats.observe(case, obs)
+
+
 def check(case):
+    if case.get("kind") == "cli-prefix":
+        return _check_cli_prefix(case)
     import mokapot
     from mokapot.proteins import Proteins
 
